@@ -116,6 +116,10 @@ func runC14(c *Ctx) {
 			wcall = call
 		}
 	}
+	if wcall != nil {
+		ok, why := ownedBytes(w, a.Set, wcall.Call.Args[2], 0)
+		c.Check(ok, "writer/content-owned", "the bytes handed to the writer belong to this call alone (a fresh encoding, never a view of a pooled or shared buffer that another goroutine may rewrite while they are being written)", w.InstrPos(wcall), why)
+	}
 	recv := "param:" + a.Set.Params[0].Name()
 	urlP := "param:" + a.Set.Params[2].Name()
 	keyName := ""
@@ -723,4 +727,55 @@ func c15Expiry(c *Ctx, EX *ssa.Function) {
 		}
 	}
 	c.Check(okMiss, "expiry/expired-is-miss", "an expired CRL yields the cache-miss sentinel (the entry is treated as absent)", w.FnPos(EX), "expiry does not map to a miss")
+}
+
+// ownedBytes: the byte slice is exclusively owned by the current call — the result of json.Marshal or a clone, or the
+// Bytes() of a buffer that is local to the function and never handed to a pool. A slice that aliases a pooled or
+// shared buffer can change while the writer is still writing it.
+func ownedBytes(w *World, fn *ssa.Function, v ssa.Value, depth int) (bool, string) {
+	if depth > 3 {
+		return false, "origin too deep"
+	}
+	v = loadOrigin(v)
+	if ex, ok := v.(*ssa.Extract); ok {
+		v = ex.Tuple
+	}
+	call, ok := v.(*ssa.Call)
+	if !ok {
+		if _, isMk := v.(*ssa.MakeSlice); isMk {
+			return true, ""
+		}
+		return false, "content is " + desc(v)
+	}
+	switch n := calleeName(call); n {
+	case "encoding/json.Marshal", "encoding/json.MarshalIndent", "bytes.Clone", "slices.Clone":
+		return true, ""
+	case "(*bytes.Buffer).Bytes":
+		buf := call.Call.Args[0]
+		al, isLocal := buf.(*ssa.Alloc)
+		if !isLocal {
+			return false, "content aliases the buffer " + desc(buf) + ", which is not local to " + fnName(fn) + " (a pooled or shared buffer is overwritten by the next user while these bytes are still being written)"
+		}
+		for _, r := range *al.Referrers() {
+			if ci, ok := r.(ssa.CallInstruction); ok && strings.HasSuffix(calleeName(ci), "sync.Pool).Put") {
+				return false, "content aliases a buffer that is returned to a pool"
+			}
+		}
+		return true, ""
+	default:
+		if g := staticCallee(call); g != nil && w.IsProductFn(g) {
+			for _, b := range g.Blocks {
+				if r, ok := blockTerm(b).(*ssa.Return); ok && len(r.Results) > 0 {
+					if isNilConst(r.Results[0]) {
+						continue
+					}
+					if ok, why := ownedBytes(w, g, spilledRet(r.Results[0]), depth+1); !ok {
+						return false, why
+					}
+				}
+			}
+			return true, ""
+		}
+		return false, "content is the result of " + n
+	}
 }
